@@ -92,3 +92,24 @@ func GlobalWriteSweep(p *Prog) []string {
 func ReplayProgram(p *Prog, o *Obligation) (src string, pkgDir string, why string) {
 	return buildReplay(p, o)
 }
+
+// PrintStmtOrdinals lists the statement ordinals used by `at stmtN:` hints.
+func PrintStmtOrdinals(p *Prog, fi *FuncInfo) {
+	if fi.Decl.Body == nil {
+		return
+	}
+	n := 0
+	ast.Inspect(fi.Decl.Body, func(nd ast.Node) bool {
+		if _, isLit := nd.(*ast.FuncLit); isLit {
+			return false
+		}
+		if st, ok := nd.(ast.Stmt); ok {
+			if _, isBlock := st.(*ast.BlockStmt); !isBlock {
+				n++
+				pos := p.Fset.Position(st.Pos())
+				fmt.Printf("stmt%-3d %s:%d %T\n", n, shortFile(pos.Filename), pos.Line, st)
+			}
+		}
+		return true
+	})
+}
